@@ -132,7 +132,7 @@ pub fn numeric_looking() -> Vec<String> {
 pub fn quoted_only() -> Vec<String> {
     [
         "", " ", "  ", "a b", "a-b", "a.b", "a:b", "a;b", "a=b", "{", "}", "(", ")", "\"", "\\", "'", "\\\"", "a\"b", "//",
-        "/*", "*/", "#", "$x", "@", "a,b", "x y z", " lead", "trail ", "9lives", "r#type", "hello world!",
+        "/*", "*/", "#", "$x", "@", "a,b", ",", "a,name,unit", "5,id,unit", "x,name,struct", "x y z", " lead", "trail ", "9lives", "r#type", "hello world!",
     ]
     .iter()
     .map(|s| s.to_string())
